@@ -13,16 +13,7 @@ func init() {
 		checkRemoveExact(c)
 		// the ring never holds a key twice (RemoveKey drops one copy): every list handed to the
 		// install helper derives from the installed list
-		if inst := c.P.Func("Keyring.installKeysLocked"); inst != nil {
-			checkInstallCallers(c, "C14", inst)
-		} else {
-			for _, s := range c.G.SitesOfKind("W:Keyring.keys") {
-				if s.Fn.Name != "Keyring.init" {
-					checkInstallCallers(c, "C14", s.Fn)
-					break
-				}
-			}
-		}
+		checkInstallCallers(c, "C14", c.installAnchor("C14", "", false))
 	})
 	register("C16", func(c *Ctx) {
 		c.Assume("round-trip of the header codec for every payload and every stream fragmentation is a value property (bufio.Reader.Peek contract trusted)")
